@@ -1623,10 +1623,58 @@ fn exec_refv(t: &[&str]) -> Outcome {
     }
 }
 
-/// descriptions for the reference-verifier tie: no auxiliary segment; periodic columns, the three assertion
-/// kinds and more than one exemption all occur
+/// an auxiliary segment that uses everything the model has for it: two random elements, a periodic value and
+/// main cells of both rows in the constraints, a running sum and a pointwise image, a single assertion whose value
+/// is a random element, and a sequence assertion whose values are the public values of a main sequence assertion
+/// (`w<i>`) under a random linear map
+fn aux_rich_desc(n: usize) -> AirDesc {
+    let e0 = Expr::add(Expr::mul(Expr::Per(0), Expr::Cur(0)), Expr::Const(3));
+    // a0 = r0 * c1 + r1 (pointwise), a1' = a1 + p0 * c0 * r1 + n1 (running sum that reads the next main row too)
+    let img = Expr::add(Expr::mul(Expr::Rand(0), Expr::Cur(1)), Expr::Rand(1));
+    let step = Expr::add(Expr::add(Expr::AuxCur(1), Expr::mul(Expr::mul(Expr::Per(0), Expr::Cur(0)), Expr::Rand(1))), Expr::Nxt(1));
+    let c0 = Expr::sub(Expr::AuxCur(0), img.clone());
+    let c1 = Expr::sub(Expr::AuxNxt(1), step.clone());
+    let mut d = AirDesc {
+        width: 2,
+        trace_len: n,
+        exemptions: 1,
+        tail_junk: false,
+        periodic: vec![vec![3u128, 5, 7, 11]],
+        cols: vec![ColGen::Step { init: None, expr: e0.clone() }, ColGen::Counter],
+        constraints: vec![
+            Constraint { degree: Degree { base: 1, cycles: vec![4] }, expr: Expr::sub(Expr::Nxt(0), e0) },
+            Constraint { degree: Degree::new(1), expr: Expr::sub(Expr::Nxt(1), Expr::add(Expr::Cur(1), Expr::Const(1))) },
+        ],
+        // public inputs: [c0[0], c1[0], c1[4], ...]: the sequence starts at offset 1
+        assertions: vec![AssertDesc::single(0, 0), AssertDesc::sequence(1, 0, 4)],
+        aux: None,
+    };
+    let cycles = d.cycles();
+    d.aux = Some(AuxDesc {
+        width: 2,
+        num_rands: 2,
+        lagrange: false,
+        cols: vec![AuxGen::Fn(img), AuxGen::Acc { init: Expr::Rand(0), step }],
+        constraints: vec![
+            Constraint { degree: c0.degree(&cycles, n), expr: c0 },
+            Constraint { degree: c1.degree(&cycles, n), expr: c1 },
+        ],
+        assertions: vec![
+            AuxAssertDesc { a: AssertDesc::single(1, 0), value: Expr::Rand(0) },
+            AuxAssertDesc {
+                a: AssertDesc::sequence(0, 0, 4),
+                value: Expr::add(Expr::mul(Expr::Rand(0), Expr::PubSeq(1)), Expr::Rand(1)),
+            },
+        ],
+    });
+    d
+}
+
+/// descriptions for the reference-verifier tie: periodic columns, the three assertion kinds, more than one
+/// exemption and (for a good third of them) an auxiliary segment without Lagrange kernel column all occur
 fn refv_descs(rng: &mut Rng, count: usize, max_log_len: u32) -> Vec<AirDesc> {
-    let mut v: Vec<AirDesc> = small_descs(8).into_iter().filter(|d| d.aux.is_none()).collect();
+    let mut v: Vec<AirDesc> = small_descs(8).into_iter().filter(|d| !d.has_lagrange()).collect();
+    v.push(aux_rich_desc(8));
     let p0 = vec![3u128, 5, 7, 11];
     // periodic column in a constraint (degree with a cycle), periodic assertion on a cyclic column, sequence assertion
     let e = Expr::add(Expr::mul(Expr::Per(0), Expr::Cur(0)), Expr::Const(3));
@@ -1688,12 +1736,16 @@ fn refv_descs(rng: &mut Rng, count: usize, max_log_len: u32) -> Vec<AirDesc> {
         assertions: vec![AssertDesc::single(0, 0)],
         aux: None,
     });
+    // random descriptions: with an auxiliary segment until a good third of all descriptions has one
     let bud = Budget { min_log_len: 3, max_log_len, max_width: 3, max_degree: 3, aux_pct: 0, lagrange_pct: 0, exemptions: true, degenerate: false, sequences: true };
+    let bud_aux = Budget { aux_pct: 100, ..bud.clone() };
     let mut guard = 0;
     while v.len() < count && guard < 10 * count {
         guard += 1;
-        let d = random_desc(rng, &bud);
-        if d.aux.is_none() && d.validate().is_ok() {
+        let naux = v.iter().filter(|d| d.aux.is_some()).count();
+        let want_aux = 5 * naux < 2 * count;
+        let d = random_desc(rng, if want_aux { &bud_aux } else { &bud });
+        if d.aux.is_some() == want_aux && !d.has_lagrange() && d.validate().is_ok() {
             v.push(d);
         }
     }
@@ -1704,7 +1756,7 @@ fn refv_descs(rng: &mut Rng, count: usize, max_log_len: u32) -> Vec<AirDesc> {
 /// sample of every mutation family applied to its bytes
 fn refv_lines(rng: &mut Rng, tier: Tier) -> Vec<String> {
     let quick = tier == Tier::Quick;
-    let (ncfg, per) = if quick { (12, 2usize) } else { (72, 4usize) };
+    let (ncfg, per) = if quick { (14, 2usize) } else { (80, 4usize) };
     let descs = refv_descs(rng, ncfg, if quick { 4 } else { 5 });
     let mut out = vec![];
     for (k, d) in descs.iter().enumerate() {
@@ -1755,7 +1807,7 @@ fn refv_lines(rng: &mut Rng, tier: Tier) -> Vec<String> {
         out.push(format!("{} os:{},{} {} policy {}", head, other.to_text(), c.opts.to_text(), pubs, hx));
         // other public inputs: one value changed, one dropped, one appended
         let mut p2 = base.pubs.clone();
-        p2[0] = (p2[0] + 1) % FieldId::F64.modulus();
+        p2[0] = (p2[0] + 1) % c.field.modulus();
         out.push(format!("{} {} {} pubs {}", head, os, pubs_text(&p2), hx));
         if k % 2 == 0 {
             let mut p3 = base.pubs.clone();
@@ -1821,6 +1873,19 @@ fn refv_lines(rng: &mut Rng, tier: Tier) -> Vec<String> {
                 out.push(format!("{} {} {} remresize:fri.remainder {}", head, os, pubs, hex(&p.to_bytes())));
             }
         }
+        // a prover that corrupts one cell of the auxiliary segment after building it (the auxiliary transition
+        // constraints / boundary assertions are then violated): what the verifiers answer must be the same
+        if let Some(x) = &c.desc.aux {
+            for (col, row) in [(0usize, 1usize), (x.width - 1, n - 1)] {
+                let trace = gen_trace(&c.desc, c.field, c.seed);
+                let desc = c.desc.clone();
+                if let Ok(o) = guarded(|| prove_adv(&desc, &trace, c.field, &c.opts, c.hash, None, &c.meta, Some((col, row)))) {
+                    if let Ok(p) = o.proof {
+                        out.push(format!("{} {} {} auxbad:aux.{}.{} {}", head, os, pubs, col, row, hex(&p.to_bytes())));
+                    }
+                }
+            }
+        }
         let mut fams = fams;
         fams.push(("shape", 5 * per, shape));
         for (fam, take, mut ms) in fams {
@@ -1837,6 +1902,18 @@ fn refv_lines(rng: &mut Rng, tier: Tier) -> Vec<String> {
                 let acc = if same_opts { os.clone() } else { "mc:0".to_string() };
                 out.push(format!("{} {} {} {}:{} {}", head, acc, pubs, fam, comp, hex(&m)));
             }
+        }
+    }
+    // the honest proofs the Lean kernel checks (WinterProofs/RefVerifierWitness*.lean hold these bytes): the
+    // smallest configuration with an auxiliary segment (running product, one random element; 16-point LDE
+    // domain, one query, one FRI layer)
+    for d in small_descs(8).into_iter().filter(|d| d.aux.is_some() && !d.has_lagrange()).take(1) {
+        let c = Cfg { field: FieldId::F64, hash: HashId::Rp64_256, opts: OptSpec::new(1, 2, 0, 1, 4, 1), seed: 7100, desc: Arc::new(d), meta: vec![] };
+        if let Ok(base) = make_base(&c) {
+            out.push(format!(
+                "refv {} {} {} {} {} os:{} {} honest {}",
+                c.field.name(), c.hash.name(), c.opts.to_text(), c.seed, c.desc.to_line(), c.opts.to_text(), pubs_text(&base.pubs), hex(&base.bytes)
+            ));
         }
     }
     out
